@@ -133,11 +133,50 @@ Proof.
   change (sum_fee (sg :: tr)) with (sg_fee sg + sum_fee tr). lia.
 Qed.
 
+(* ---------- a swap takes at most swap_fuel steps ---------- *)
+Lemma loop_out_trace_len : forall fuel zfo accum spf sc limit st iter noprog st' tr,
+  loop_out_trace fuel zfo accum spf sc limit st iter noprog = Some (st', tr) -> (length tr <= fuel)%nat.
+Proof.
+  induction fuel as [|f IH]; intros zfo accum spf sc limit st iter noprog st' tr H; simpl in H; [discriminate H|].
+  destruct ((smallest_dec <? ss_remaining st) && negb (ss_sqrt st =? limit)); [|inversion H; subst; simpl; lia].
+  destruct iter as [|[nt info] rest]; [discriminate H|].
+  destruct (tick_to_sqrt_price nt) as [nts|]; [|discriminate H]. cbv beta iota in H.
+  destruct (compute_out_given_in _ _ _ _ _ _) as [[[[computed ain] aout] fee]|]; [|discriminate H].
+  cbv beta iota in H. destruct (negb (progress_ok computed (ss_sqrt st) ain aout)); [discriminate H|].
+  destruct (dchk (ain + fee)) as [infee|]; [|discriminate H]. cbv beta iota in H.
+  destruct (after_step _ _ _ _ _ _ _ _ _ _ _ _) as [[st1 iter1]|]; [|discriminate H]. cbv beta iota in H.
+  destruct (ain =? 0).
+  - destruct (swap_no_progress_limit <=? noprog); [discriminate H|].
+    destruct (loop_out_trace f _ _ _ _ _ _ _ _) as [[st2 tr2]|] eqn:ELp; [|discriminate H].
+    inversion H; subst. apply IH in ELp. simpl. lia.
+  - destruct (loop_out_trace f _ _ _ _ _ _ _ _) as [[st2 tr2]|] eqn:ELp; [|discriminate H].
+    inversion H; subst. apply IH in ELp. simpl. lia.
+Qed.
+Lemma loop_in_trace_len : forall fuel zfo accum spf sc limit st iter noprog st' tr,
+  loop_in_trace fuel zfo accum spf sc limit st iter noprog = Some (st', tr) -> (length tr <= fuel)%nat.
+Proof.
+  induction fuel as [|f IH]; intros zfo accum spf sc limit st iter noprog st' tr H; simpl in H; [discriminate H|].
+  destruct ((smallest_dec <? ss_remaining st) && negb (ss_sqrt st =? limit)); [|inversion H; subst; simpl; lia].
+  destruct iter as [|[nt info] rest]; [discriminate H|].
+  destruct (tick_to_sqrt_price nt) as [nts|]; [|discriminate H]. cbv beta iota in H.
+  destruct (compute_in_given_out _ _ _ _ _ _) as [[[[computed aout] ain] fee]|]; [|discriminate H].
+  cbv beta iota in H. repeat match type of H with (if ?b then None else _) = _ => destruct b; [discriminate H|] end.
+  repeat match type of H with (do _ <- dchk ?x; _) = _ => destruct (dchk x); [|discriminate H]; cbv beta iota in H end.
+  destruct (after_step _ _ _ _ _ _ _ _ _ _ _ _) as [[st1 iter1]|]; [|discriminate H]. cbv beta iota in H.
+  match type of H with (if ?c then _ else _) = _ => destruct c end.
+  - destruct (swap_no_progress_limit <=? noprog); [discriminate H|].
+    destruct (loop_in_trace f _ _ _ _ _ _ _ _) as [[st2 tr2]|] eqn:ELp; [|discriminate H].
+    inversion H; subst. apply IH in ELp. simpl. lia.
+  - destruct (loop_in_trace f _ _ _ _ _ _ _ _) as [[st2 tr2]|] eqn:ELp; [|discriminate H].
+    inversion H; subst. apply IH in ELp. simpl. lia.
+Qed.
+
 (* ---------- the two computations, with the part of the amount in that goes to the pool account ---------- *)
 Theorem swap_in_path2 : forall s zfo amt r, Inv s -> 0 <= amt ->
   compute_out_amt_given_in s zfo true amt = Some r ->
   exists tr, chain (p_sqrt (s_pool s)) tr (sr_sqrt r) /\ Forall (seg_ok s zfo) tr /\ Forall (seg2_ok s zfo) tr /\
-    sr_out r * P18 <= sum_out tr /\ (sr_in r - d_truncate_int (d_ceil (sr_fee r))) * P18 = sum_in tr.
+    sr_out r * P18 <= sum_out tr /\ (sr_in r - d_truncate_int (d_ceil (sr_fee r))) * P18 = sum_in tr /\
+    (length tr <= swap_fuel (s_ticks s))%nat.
 Proof.
   intros s zfo amt r I Ha H. unfold compute_out_amt_given_in in H.
   destruct (swap_setup s zfo) as [[limit iter]|] eqn:ES; [|discriminate].
@@ -153,13 +192,14 @@ Proof.
   replace (amt * P18 - ss_remaining st) with (sum_in tr + sum_fee tr) by (rewrite <- sum_gross_split; lia).
   split; [apply d_trunc_le; assumption|].
   rewrite (ceil_split _ _ W0 H0 W).
-  pose proof (Z.quot_rem' (sum_in tr) P18) as Q. rewrite W in Q. lia.
+  pose proof (Z.quot_rem' (sum_in tr) P18) as Q. rewrite W in Q. split; [lia|]. exact (loop_out_trace_len _ _ _ _ _ _ _ _ _ _ _ ET).
 Qed.
 
 Theorem swap_out_path2 : forall s zfo amt r, Inv s -> 0 <= amt ->
   compute_in_amt_given_out s zfo true amt = Some r ->
   exists tr, chain (p_sqrt (s_pool s)) tr (sr_sqrt r) /\ Forall (seg_ok s zfo) tr /\ Forall (seg2_ok s zfo) tr /\
-    sr_out r * P18 <= sum_out tr /\ (sr_in r - d_truncate_int (d_ceil (sr_fee r))) * P18 = sum_in tr.
+    sr_out r * P18 <= sum_out tr /\ (sr_in r - d_truncate_int (d_ceil (sr_fee r))) * P18 = sum_in tr /\
+    (length tr <= swap_fuel (s_ticks s))%nat.
 Proof.
   intros s zfo amt r I Ha H. unfold compute_in_amt_given_out in H.
   destruct (swap_setup s zfo) as [[limit iter]|] eqn:ES; [|discriminate].
@@ -175,7 +215,7 @@ Proof.
   replace (amt * P18 - ss_remaining st) with (sum_out tr) by lia.
   split; [apply d_trunc_le; assumption|].
   rewrite sum_gross_split, (ceil_split _ _ W0 H0 W).
-  pose proof (Z.quot_rem' (sum_in tr) P18) as Q. rewrite W in Q. lia.
+  pose proof (Z.quot_rem' (sum_in tr) P18) as Q. rewrite W in Q. split; [lia|]. exact (loop_in_trace_len _ _ _ _ _ _ _ _ _ _ _ ET).
 Qed.
 
 (* ---------- the invariant through the bank movement of a swap ---------- *)
@@ -210,8 +250,18 @@ Proof.
     rewrite !qz_minus, !qz_plus. change (qz 0) with 0. set (ln := qz (Z.of_nat (length tr))) in *. split; lra.
 Qed.
 
+Lemma eps36_nonneg : 0 <= eps36.
+Proof. unfold eps36. apply Qle_shift_div_l; [|lra]. pose proof q36_pos. lra. Qed.
+Lemma SolvP_mono : forall s n m, (n <= m)%Z -> SolvP s n -> SolvP s m.
+Proof.
+  intros s n m H [A B]. split; [exact A|]. pose proof eps36_nonneg as E. pose proof (qz_le _ _ H) as Q.
+  assert (qz n * eps36 <= qz m * eps36) by (apply Qmult_le_compat_r; assumption). lra.
+Qed.
+(* the number of half-units of the 36th decimal a swap can add to the slack of token1 *)
+Definition swap_cost (s : state) (zfo : bool) : Z := if zfo then 0 else Z.of_nat (swap_fuel (s_ticks s)).
+
 Theorem swap_in_solvent : forall s n sender zfo amt mo s' out, Inv s -> SolvP s n ->
-  swap_exact_in s sender zfo amt mo = Some (s', out) -> exists k, (0 <= k)%Z /\ SolvP s' (n + k).
+  swap_exact_in s sender zfo amt mo = Some (s', out) -> SolvP s' (n + swap_cost s zfo).
 Proof.
   intros s n sender zfo amt mo s' out I S H. unfold swap_exact_in in H.
   destruct (negb (0 <? amt) || negb (0 <? mo)) eqn:EV; [discriminate H|].
@@ -221,23 +271,23 @@ Proof.
   destruct (update_pool_for_swap s sender zfo r) as [s1|] eqn:EU; [|discriminate H]. cbv beta iota in H.
   destruct (sr_out r <? mo); [discriminate H|]. inversion H; subst s1 out; clear H.
   assert (Ha : (0 <= amt)%Z) by lia.
-  destruct (swap_in_path2 s zfo amt r I Ha EC) as [tr [C [F [F2 [Ho Hi]]]]].
+  destruct (swap_in_path2 s zfo amt r I Ha EC) as [tr [C [F [F2 [Ho [Hi Hl]]]]]].
   destruct (update_pool_for_swap_bpool _ _ _ _ _ EU) as [HB [HP HS]]. cbv zeta in HB.
-  exists (if zfo then 0 else Z.of_nat (length tr))%Z. split; [destruct zfo; lia|].
+  apply (SolvP_mono s' (n + (if zfo then 0 else Z.of_nat (length tr)))%Z); [unfold swap_cost; destruct zfo; lia|].
   apply (swap_core s s' zfo tr n (sr_in r - d_truncate_int (d_ceil (sr_fee r)))%Z (sr_out r) I S);
     [rewrite HS; exact C|assumption|assumption|assumption|exact Hi|exact Ho|exact HB].
 Qed.
 
 Theorem swap_out_solvent : forall s n sender zfo amt mi s' tin, Inv s -> SolvP s n ->
-  swap_exact_out s sender zfo amt mi = Some (s', tin) -> exists k, (0 <= k)%Z /\ SolvP s' (n + k).
+  swap_exact_out s sender zfo amt mi = Some (s', tin) -> SolvP s' (n + swap_cost s zfo).
 Proof.
   intros s n sender zfo amt mi s' tin I S H. unfold swap_exact_out in H.
   destruct (negb (0 <? amt) || negb (0 <? mi)) eqn:EV; [discriminate H|].
   apply orb_false_iff in EV. destruct EV as [EV _]. apply negb_false_iff, Z.ltb_lt in EV.
   destruct (compute_in_amt_given_out s zfo true amt) as [r|] eqn:EC; [|discriminate H]. cbv beta iota in H.
   assert (Ha : (0 <= amt)%Z) by lia.
-  destruct (swap_out_path2 s zfo amt r I Ha EC) as [tr [C [F [F2 [Ho Hi]]]]].
-  exists (if zfo then 0 else Z.of_nat (length tr))%Z. split; [destruct zfo; lia|].
+  destruct (swap_out_path2 s zfo amt r I Ha EC) as [tr [C [F [F2 [Ho [Hi Hl]]]]]].
+  apply (SolvP_mono s' (n + (if zfo then 0 else Z.of_nat (length tr)))%Z); [unfold swap_cost; destruct zfo; lia|].
   revert H. repeat match goal with |- context [if ?b then None else _] => destruct b; [discriminate|] end.
   destruct (update_pool_for_swap s sender zfo r) as [s1|] eqn:EU; [|discriminate]. cbv beta iota.
   repeat match goal with |- context [if ?b then None else _] => destruct b; [discriminate|] end.
